@@ -303,7 +303,7 @@ def _every_step(draw):
 
 
 def strategy(ctx):
-    return st.one_of(_history(), _history(), _history(), _machine(), _every_step())
+    return st.one_of(_history(), _history(), _history(), _history(), _history(), _machine(), _machine(), _every_step())
 
 
 def _args(case):
